@@ -4,7 +4,7 @@
    implementation.  CPython's own quirks are reproduced on purpose (they are observable through the css
    codec):  one-shot utf-16/utf-32 without BOM decodes little-endian while the incremental decoder raises
    UnicodeError; the incremental utf-8-sig decoder returns '' for a truncated BOM even when final.
-   Error *timing* inside a run is not modelled (an exception ends a run, only the fact is compared). *)
+   Error timing follows CPython (c_dec_trace / c_enc_trace give the result of every call up to the one that raises). *)
 From CssV Require Import Base CodecPyLib Codec.
 Local Open Scope N_scope.
 
@@ -34,6 +34,14 @@ Definition is_cont (b : N) : bool := (128 <=? b) && (b <=? 191).
 Definition is_surr (c : N) : bool := (55296 <=? c) && (c <=? 57343).
 Definition valid_cp (c : N) : bool := (c <=? 1114111) && negb (is_surr c).
 
+(* CPython's UTF-8 decoder (Objects/stringlib/codecs.h) rejects a sequence as soon as the bytes seen so far cannot
+   start a valid one: the second byte is range-checked against the lead byte (E0: A0-BF, ED: 80-9F, F0: 90-BF,
+   F4: 80-8F), so overlong forms, surrogates and code points > 10FFFF never need a separate test. *)
+Definition ok2_3 (b0 b1 : N) : bool :=
+  is_cont b1 && negb ((b0 =? 224) && (b1 <? 160)) && negb ((b0 =? 237) && (160 <=? b1)).
+Definition ok2_4 (b0 b1 : N) : bool :=
+  is_cont b1 && negb ((b0 =? 240) && (b1 <? 144)) && negb ((b0 =? 244) && (144 <=? b1)).
+
 Definition next8 (b : str) : nxt :=
   match b with
   | [] => Incomplete
@@ -43,21 +51,30 @@ Definition next8 (b : str) : nxt :=
     else if b0 <? 224 then
       match r with
       | b1 :: r' => if is_cont b1 then Complete ((b0 - 192) * 64 + (b1 - 128)) r' else Invalid
-      | _ => Incomplete
+      | [] => Incomplete
       end
     else if b0 <? 240 then
       match r with
+      | [] => Incomplete
+      | [b1] => if ok2_3 b0 b1 then Incomplete else Invalid
       | b1 :: b2 :: r' =>
-        let c := (b0 - 224) * 4096 + (b1 - 128) * 64 + (b2 - 128) in
-        if is_cont b1 && is_cont b2 && (2048 <=? c) && negb (is_surr c) then Complete c r' else Invalid
-      | _ => Incomplete
+        if ok2_3 b0 b1 then
+          if is_cont b2 then Complete ((b0 - 224) * 4096 + (b1 - 128) * 64 + (b2 - 128)) r' else Invalid
+        else Invalid
       end
     else if b0 <? 245 then
       match r with
+      | [] => Incomplete
+      | [b1] => if ok2_4 b0 b1 then Incomplete else Invalid
+      | [b1; b2] => if ok2_4 b0 b1 then (if is_cont b2 then Incomplete else Invalid) else Invalid
       | b1 :: b2 :: b3 :: r' =>
-        let c := (b0 - 240) * 262144 + (b1 - 128) * 4096 + (b2 - 128) * 64 + (b3 - 128) in
-        if is_cont b1 && is_cont b2 && is_cont b3 && (65536 <=? c) && (c <=? 1114111) then Complete c r' else Invalid
-      | _ => Incomplete
+        if ok2_4 b0 b1 then
+          if is_cont b2 then
+            if is_cont b3
+            then Complete ((b0 - 240) * 262144 + (b1 - 128) * 4096 + (b2 - 128) * 64 + (b3 - 128)) r'
+            else Invalid
+          else Invalid
+        else Invalid
       end
     else Invalid
   end.
@@ -139,7 +156,16 @@ Definition cd_init (e : str) : option cdst :=
 Definition cd_scan (k : kind) (le : bool) (b : str) (final : bool) : cdst * res str :=
   match scan (next_of k le) (S (length b)) b final with
   | Ok (o, p) => (mkCD k p (Some le), Ok o)
-  | Err e => (mkCD k b (Some le), Err e)
+  | Err e => (mkCD k [] (Some le), Err e)
+  end.
+
+(* utf-16 / utf-32 incremental decoder on data without BOM (encodings/utf_16.py, utf_32.py): the data is decoded in
+   native (little endian) order; "UTF-16 stream does not start with BOM" is raised once that consumed anything,
+   otherwise (only an incomplete first character so far) the call returns '' and the data is looked at again *)
+Definition nobom (k : kind) (b : str) (final : bool) : cdst * res str :=
+  match scan (next_of k true) (S (length b)) b final with
+  | Err e => (mkCD k b None, Err e)
+  | Ok (_, p) => if (length p <? length b)%nat then (mkCD k b None, Err EUnicode) else (mkCD k b None, Ok [])
   end.
 
 Definition cd_step (st : cdst) (input : str) (final : bool) : cdst * res str :=
@@ -160,7 +186,7 @@ Definition cd_step (st : cdst) (input : str) (final : bool) : cdst * res str :=
       | a0 :: a1 :: r =>
         if (a0 =? 255) && (a1 =? 254) then cd_scan k true r final
         else if (a0 =? 254) && (a1 =? 255) then cd_scan k false r final
-        else (mkCD k b None, Err EUnicode)
+        else nobom k b final
       | [] => (mkCD k b None, Ok [])
       | _ => if final then (mkCD k b None, Err EUnicode) else (mkCD k b None, Ok [])
       end
@@ -169,7 +195,7 @@ Definition cd_step (st : cdst) (input : str) (final : bool) : cdst * res str :=
       | a0 :: a1 :: a2 :: a3 :: r =>
         if (a0 =? 255) && (a1 =? 254) && (a2 =? 0) && (a3 =? 0) then cd_scan k true r final
         else if (a0 =? 0) && (a1 =? 0) && (a2 =? 254) && (a3 =? 255) then cd_scan k false r final
-        else (mkCD k b None, Err EUnicode)
+        else nobom k b final
       | [] => (mkCD k b None, Ok [])
       | _ => if final then (mkCD k b None, Err EUnicode) else (mkCD k b None, Ok [])
       end
@@ -273,7 +299,7 @@ Definition ce_init (e : str) : option cest :=
 Definition ce_step (st : cest) (t : str) (final : bool) : cest * res str :=
   match enc_all (enc_char (ce_kind st)) t with
   | Ok o => (mkCE (ce_kind st) false, Ok ((if ce_first st then bom_of (ce_kind st) else []) ++ o))
-  | Err e => (st, Err e)
+  | Err e => (mkCE (ce_kind st) false, Err e)
   end.
 
 Definition ce_shot (e : str) (t : str) : res str :=
@@ -289,3 +315,8 @@ Definition c_dec_feed (encoding : option str) (force : bool) :=
   dec_feed cdst cd_init cd_step (dec_init cdst encoding force).
 Definition c_enc_feed (encoding : option str) :=
   enc_feed cest ce_init ce_step (enc_init cest encoding).
+(* per-call results (which call raises) *)
+Definition c_dec_trace (encoding : option str) (force : bool) :=
+  dec_trace cdst cd_init cd_step (dec_init cdst encoding force).
+Definition c_enc_trace (encoding : option str) :=
+  enc_trace cest ce_init ce_step (enc_init cest encoding).
